@@ -138,7 +138,16 @@ impl<'p> Painter<'p> {
         }
 
         // Nothing found, try the user provided fallback, or the internal fallback.
-        if let Some(syntax) = syntax_set.find_syntax_for_file(fallback).unwrap_or(None) {
+        // (by name only: `find_syntax_for_file` would open a file of that name in the working
+        // directory and judge by its first line)
+        let fallback_extension = std::path::Path::new(fallback)
+            .extension()
+            .and_then(|x| x.to_str())
+            .unwrap_or("");
+        if let Some(syntax) = syntax_set
+            .find_syntax_by_extension(fallback)
+            .or_else(|| syntax_set.find_syntax_by_extension(fallback_extension))
+        {
             syntax
         } else {
             syntax_set
